@@ -184,6 +184,11 @@ Qed.
 Definition GInv (s : st) (v : N -> N) : Prop :=
   if wal_mode s then WL s v /\ WK s v else J s /\ wal_file s = [] /\ wal_chk s = [].
 
+Lemma ginv_basic s v : GInv s v -> 1 <= lockpg s /\ writeable s = true.
+Proof.
+  unfold GInv. destruct (wal_mode s); intros [A _]; [destruct A|destruct A]; auto.
+Qed.
+
 Lemma rb_jb s : RB s -> writeable s = true ->
   (txid s <> 0 -> chk s = scratch (fun p => if p =? lockpg s then 0 else file_h s p) (pageN s)) -> JB s.
 Proof.
@@ -282,6 +287,62 @@ Proof.
            ++ change (dbfile sd) with (dbfile s). unfold lenN. destruct (dbfile s); [contradiction|]. cbn [length]. lia.
 Qed.
 
+(* ---- the database is dropped ---- *)
+Lemma ginv_cache s v : GInv s v -> CacheOK s /\ LockZero s.
+Proof. unfold GInv. destruct (wal_mode s); intros [A _]; destruct A; auto. Qed.
+
+Lemma drop_step s v s' : GInv s v -> op_drop s = (Done, s') -> GInv s' (file_h s') /\ lockpg s' = lockpg s.
+Proof.
+  intros HI H. destruct (ginv_basic s v HI) as [Hlk Hw]. unfold op_drop in H. rewrite Hw in H. cbn [negb] in H.
+  inversion H; subst s'. clear H. split; [|reflexivity]. unfold GInv. cbn [wal_mode with_pos].
+  split; [|split; reflexivity]. constructor; cbn [writeable wal_mode lockpg pageN txid chk with_pos with_wal]; try assumption; try reflexivity.
+  - intros b Hb. unfold lenN in Hb. cbn in Hb. lia.
+  - unfold LockZero, dbc, db_page_chk, nthN. cbn. destruct (N.to_nat (lockpg s - 1)); reflexivity.
+  - intros p Hp. lia.
+  - intros p _. unfold dbc, db_page_chk, nthN. cbn. destruct (N.to_nat (p - 1)); reflexivity.
+  - intros q Hq. unfold file_pg in Hq. cbn in Hq. destruct (N.to_nat (1 - 1)); discriminate.
+Qed.
+
+(* ---- an import: a whole database image replaces the database ---- *)
+Definition wf_import (s : st) (pages : list (N * pg)) (commit : N) : Prop :=
+  (forall p q, In (p, q) pages -> 1 <= p) /\ KeysNoDup pages /\ commit <> 0 /\ lockpg s <> 1 /\
+  (forall x, 1 <= x <= commit -> alookup x pages <> None).            (* the image has every page *)
+
+Lemma import_step s v pages commit s' : GInv s v -> wf_import s pages commit ->
+  op_import s pages commit true = (Done, s') -> GInv s' (file_h s') /\ lockpg s' = lockpg s.
+Proof.
+  intros HI [Hpos [Hnd [Hc0 [Hl1 Hcov]]]] H. destruct (ginv_basic s v HI) as [Hlk Hw]. destruct (ginv_cache s v HI) as [HC HL].
+  unfold op_import in H. rewrite Hw in H. cbn [negb] in H.
+  set (pages' := filter (fun kv => (fun k => negb (k =? lockpg s)) (fst kv)) pages) in *.
+  set (f := mkLtx (txid s + 1) (txid s + 1) (chk s) (if commit =? 0 then 0 else import_post (lockpg s) pages) commit pages') in *.
+  set (s1 := with_dirty (with_wal (with_dir s (ltxdir s ++ [f])) [] [] []) []) in *.
+  assert (Hwf : wf_ltx f).
+  { split; cbn [l_pages f].
+    - intros p q Hin. apply filter_In in Hin. apply (Hpos p q). tauto.
+    - apply keys_filter. exact Hnd. }
+  assert (Hlook : forall x, x <> lockpg s -> alookup x pages' = alookup x pages).
+  { intros x Hnl. unfold pages'. rewrite (alookup_filter_key (fun k => negb (k =? lockpg s))).
+    destruct (N.eqb_spec x (lockpg s)); [contradiction|reflexivity]. }
+  destruct (apply_core s1 f true s') as [HR [El [Et [_ [_ Hc]]]]]; try assumption; try reflexivity.
+  - intros x Hx Hnl Hnone. exfalso. cbn [l_pages l_commit f] in *. change (lockpg s1) with (lockpg s) in Hnl.
+    rewrite (Hlook x Hnl) in Hnone. apply (Hcov x Hx Hnone).
+  - change (lockpg s1) with (lockpg s) in El. cbn [l_max l_commit f] in *.
+    destruct (apply_fields s1 f true s' H) as [Fw [F1 _]]. destruct (F1 Hc0) as [Fwf Fm]. cbn [l_pages f] in Fm.
+    change (wal_file s1) with (@nil (N * pg * N)) in Fwf. change (writeable s1) with (writeable s) in Fw.
+    assert (HB' : JB s') by (apply (rb_jb s' HR); [congruence|intros _; exact Hc]).
+    split; [|exact El]. unfold GInv. destruct (wal_mode s') eqn:Em.
+    + split; [apply wl_entry; [exact HB'|exact Em|apply (r_nowal s' HR)|lia]|].
+      apply wk_entry; [exact HB'|exact Fwf|apply (r_nowal s' HR)].
+    + split; [|split; [exact Fwf|apply (r_nowal s' HR)]]. apply (jb_j s' HB' Em).
+      intros q Hq. destruct Hwf as [Hpos' Hnd'].
+      assert (Hkk : forall kv, In kv (l_pages f) -> 1 <= fst kv) by (intros [p0 q0] Hin; apply (Hpos' p0 q0 Hin)).
+      destruct (apply_file s1 f true s' H ltac:(cbn [l_commit f]; lia) Hkk Hnd') as [A _]. cbn [l_pages l_commit f] in A.
+      assert (1 <> lockpg s) as Hn1 by congruence.
+      destruct (alookup 1 pages') as [q1|] eqn:E1.
+      * apply alookup_in in E1. rewrite (A 1 q1 E1 ltac:(lia)) in Hq. inversion Hq; subst. congruence.
+      * exfalso. rewrite (Hlook 1 Hn1) in E1. apply (Hcov 1 ltac:(lia) E1).
+Qed.
+
 (* ---- the steps of a history ---- *)
 Inductive gstep :=
 | GJ (h : hstep)                                    (* rollback-journal mode: a transaction that keeps the mode; the truncate *)
@@ -289,7 +350,9 @@ Inductive gstep :=
 | GW (o : wop2)                                     (* WAL mode: a commit, a checkpoint of any kind *)
 | GLeave (q : pg) (c : N)                           (* the way back: the log removed, page 1 rewritten under a rollback journal *)
 | GRestart                                          (* LiteFS restarts: Open *)
-| GRecv (f : ltxrec).                               (* a transaction file arrives on the stream: refused, or applied *)
+| GRecv (f : ltxrec)                                (* a transaction file arrives on the stream: refused, or applied *)
+| GDrop                                             (* the database is dropped *)
+| GImport (pages : list (N * pg)) (commit : N).     (* a database image is imported over whatever is there *)
 Definition grun (s : st) (g : gstep) : option st :=
   match g with
   | GJ h => match run_group s (hops s h) with (0, s') => Some s' | _ => None end
@@ -298,6 +361,8 @@ Definition grun (s : st) (g : gstep) : option st :=
   | GLeave q c => match run_group s (leave_ops q c) with (0, s') => Some s' | _ => None end
   | GRestart => match op_open s with (Done, s') => Some s' | _ => None end
   | GRecv f => match op_receive s f with (Done, s') | (Failed, s') => Some s' | _ => None end
+  | GDrop => match op_drop s with (Done, s') => Some s' | _ => None end
+  | GImport pages commit => match op_import s pages commit true with (Done, s') => Some s' | _ => None end
   end.
 (* the logical database after the step: in WAL mode the overlay; otherwise the file *)
 Definition gview (s s' : st) (g : gstep) (v : N -> N) : N -> N :=
@@ -315,6 +380,8 @@ Definition wf_gstep (s : st) (g : gstep) : Prop :=
   | GLeave q c => wal_mode s = true /\ wal_file s = [] /\ pg_wal q = false
   | GRestart => wf_restart s
   | GRecv f => wf_recv s f
+  | GDrop => True
+  | GImport pages commit => wf_import s pages commit
   end.
 Fixpoint run_gsteps (s : st) (v : N -> N) (gs : list gstep) : option (st * (N -> N)) :=
   match gs with
@@ -327,14 +394,10 @@ Fixpoint wf_gsteps (s : st) (gs : list gstep) : Prop :=
   | g :: r => wf_gstep s g /\ forall s', grun s g = Some s' -> wf_gsteps s' r
   end.
 
-Lemma ginv_basic s v : GInv s v -> 1 <= lockpg s /\ writeable s = true.
-Proof.
-  unfold GInv. destruct (wal_mode s); intros [A _]; [destruct A|destruct A]; auto.
-Qed.
 
 Lemma g_step s v g s' : GInv s v -> wf_gstep s g -> grun s g = Some s' -> GInv s' (gview s s' g v) /\ lockpg s' = lockpg s.
 Proof.
-  intros HI Hwf H. destruct (ginv_basic s v HI) as [Hlk Hw]. destruct g as [h|zf acts c|o|q c| |f]; cbn [grun wf_gstep gview] in *.
+  intros HI Hwf H. destruct (ginv_basic s v HI) as [Hlk Hw]. destruct g as [h|zf acts c|o|q c| |f| |pages commit]; cbn [grun wf_gstep gview] in *.
   - destruct Hwf as [Hm Hws]. unfold GInv in HI. rewrite Hm in HI. destruct HI as [HJ [Hf Hk]].
     destruct (run_group s (hops s h)) as [code s1] eqn:E. destruct code; [|discriminate]. inversion H; subst s1. clear H.
     destruct (j_step s h s' HJ Hws E) as [HJ' El]. split; [|exact El].
@@ -362,6 +425,10 @@ Proof.
     assert (oc = Done \/ oc = Failed) as Hoc by (destruct oc; try discriminate; auto).
     assert (s1 = s') as -> by (destruct oc; try discriminate; inversion H; reflexivity).
     apply (recv_step s v f oc s' HI Hwf E Hoc).
+  - destruct (op_drop s) as [oc s1] eqn:E. destruct oc; try discriminate. inversion H; subst s1. clear H.
+    apply (drop_step s v s' HI E).
+  - destruct (op_import s pages commit true) as [oc s1] eqn:E. destruct oc; try discriminate. inversion H; subst s1. clear H.
+    apply (import_step s v pages commit s' HI Hwf E).
 Qed.
 
 Theorem g_history_invariant : forall gs s v s' v',
@@ -402,7 +469,7 @@ Qed.
 (* a concrete history that meets the hypotheses (the non-vacuity example of Props/C04.v): create the database; restart;
    switch to WAL mode; a WAL transaction that grows the database; restart with the log in place; another transaction; a
    complete SQLite checkpoint with the restart of the log; back to rollback-journal mode; a rollback-journal transaction; a
-   file from the stream applied, a stray one refused; a transaction of its own again *)
+   file from the stream applied, a stray one refused; a transaction of its own again; a drop; an import *)
 Lemma g_history_example :
   let pg h n := mkPg (fl h) n false in
   let pw h n := mkPg (fl h) n true in
@@ -418,11 +485,13 @@ Lemma g_history_example :
              GJ (HTx [] [AWrite 3 (pg 36 0)] 3);
              GRecv (mkLtx 7 7 (x3 15 24 36) (x3 15 27 36) 3 [(2, pg 27 0)]);
              GRecv (mkLtx 9 9 0 0 1 []);
-             GJ (HTx [] [AWrite 1 (pg 18 3)] 3)] in
+             GJ (HTx [] [AWrite 1 (pg 18 3)] 3);
+             GDrop;
+             GImport [(1, pg 41 2); (2, pg 42 0)] 2] in
   wf_gsteps (init 2097153) gs /\
   match run_gsteps (init 2097153) (fun _ => 0) gs with
-  | Some (s', v') => (wal_mode s', txid s', pageN s', chk s' =? x3 18 27 36, lenN (dbfile s'),
-                      map (file_h s') [1; 2; 3]) = (false, 8, 3, true, 3, [fl 18; fl 27; fl 36])
+  | Some (s', v') => (wal_mode s', txid s', pageN s', chk s' =? fl (N.lxor (fl 41) (fl 42)), lenN (dbfile s'),
+                      map (file_h s') [1; 2; 3]) = (false, 10, 2, true, 2, [fl 41; fl 42; 0])
   | None => False
   end.
 Proof.
@@ -461,5 +530,10 @@ Proof.
   gnext s9 E9. split. { wf_rcv. }
   gnext s10 E10. split. { wf_rcv. }
   gnext s11 E11. split. { split; [reflexivity|]. cbn [wf_step]. wf_tx. }
-  intros s12 _. exact I.
+  gnext s12 E12. split; [exact I|].
+  gnext s13 E13. split.
+  { split; [intros p q H; in_one H|]. split; [unfold KeysNoDup; cbn [map fst]; repeat constructor; cbn [In]; lia|].
+    split; [discriminate|]. split; [cbn [lockpg]; discriminate|].
+    intros x Hx. assert (x = 1 \/ x = 2) as [->| ->] by lia; discriminate. }
+  intros s14 _. exact I.
 Qed.
